@@ -55,6 +55,8 @@ class Sys:
             def message_from_device(self, message):
                 outer.log.append(message)
 
+        # operation-history model of the enabled flags (the live .enabled attributes are checked against it)
+        self.flags = {"vec": p.get("vec_enabled", True), "grp": p.get("grp_enabled", True), "by": True, "el": {}}
         self.client = Rec()
         self.router.register_client(self.client)
         for s in self.specs:
@@ -88,13 +90,17 @@ class Sys:
             vec.state_ = op[1]
         elif o == "vec-enabled":
             vec.enabled = op[1]
+            self.flags["vec"] = op[1]
         elif o == "grp-enabled":
             g1.enabled = op[1]
+            self.flags["grp"] = op[1]
         elif o == "el-enabled":
             getattr(vec, op[1]).enabled = op[2]
+            self.flags["el"][op[1]] = op[2]
         elif o == "by-enabled":
             g2 = DM.live_group(dev, spec["groups"][1])
             g2.vectors["o"].enabled = op[1]
+            self.flags["by"] = op[1]
         elif o == "unset":
             getattr(vec, op[1]).value = None
         return list(self.log)
@@ -175,6 +181,19 @@ def check_state(sysm, p, path, res, viol):
         return False
     names = [s["name"] for s in specs]
     vnames = sorted({vn for t in truths for vn in t})
+    # the drivers' own .enabled attributes must agree with the history of enabling operations
+    fl = sysm.flags
+    for vn, want in (("TGT", fl["vec"] and fl["grp"]), ("OTHER", fl["by"])):
+        if vn in truths[0] and truths[0][vn]["enabled"] != want:
+            viol("enabled-flag", "vector=%s" % ("target" if vn == "TGT" else "bystander"), "after %r: DEV0/%s.enabled is %r, the operations performed imply %r" % (path, vn, truths[0][vn]["enabled"], want), {"p": p, "path": path, "req": None})
+    for ea, want in fl["el"].items():
+        en = ea.upper()
+        if truths[0]["TGT"]["elements"][en]["enabled"] != want:
+            viol("enabled-flag", "element", "after %r: element %s enabled=%r, expected %r" % (path, en, truths[0]["TGT"]["elements"][en]["enabled"], want), {"p": p, "path": path, "req": None})
+    for di in range(1, len(truths)):
+        for vn, tv in truths[di].items():
+            if not tv["enabled"]:
+                viol("enabled-flag", "other-device", "after %r: DEV%d/%s became disabled" % (path, di, vn), {"p": p, "path": path, "req": None})
     for device in names + [None, "NOPE"]:
         for name in [None] + vnames + ["NOPE"]:
             msgs = sysm.request(device, name)
